@@ -29,4 +29,7 @@
 //	c05.keys        private-key constructors, derived public keys, ECDH x-coordinate
 //	c05.reuse       histories over ONE set of argument objects (big.Int pairs, scalar and encoding
 //	                slices) overwritten in place between calls, for every entry point (reuse.go)
+//	c05.held        histories over HELD RESULTS: every result of every result-returning function is kept by
+//	                reference across the next 1..5 calls of the same and of other functions, must keep its value,
+//	                and is then overwritten by the caller without effect on later results or live objects (held.go)
 package c05
